@@ -12,6 +12,8 @@ import (
 	"bytes"
 	"fmt"
 	"strings"
+	"sync/atomic"
+	"time"
 
 	"github.com/insomniacslk/dhcp/rfc1035label"
 )
@@ -46,7 +48,73 @@ func parseNames(s string) []string {
 	return out
 }
 
+// A broken decoder may loop forever (e.g. a pointer to itself once the
+// nested-pointer check is gone).  Library calls therefore run on a worker
+// goroutine; a call that does not return within labelOpTimeout is reported as
+// "hang", the stuck worker is abandoned and a new one started.  After
+// labelMaxHangs hangs the remaining operations are not executed any more
+// (each abandoned worker keeps a CPU busy).
+const (
+	labelOpTimeout = 2 * time.Second
+	labelMaxHangs  = 6
+)
+
+type labelWorker struct {
+	req  chan func() string
+	resp chan string
+}
+
+var (
+	labelW     *labelWorker
+	labelHangs int32
+	labelTimer *time.Timer
+)
+
+func newLabelWorker() *labelWorker {
+	w := &labelWorker{req: make(chan func() string), resp: make(chan string, 1)}
+	go func() {
+		for f := range w.req {
+			w.resp <- func() (out string) {
+				defer func() {
+					if e := recover(); e != nil {
+						lastPanic = fmt.Sprint(e)
+						out = "panic"
+					}
+				}()
+				return f()
+			}()
+		}
+	}()
+	return w
+}
+
+// guardHang runs f on the worker; not safe for concurrent use (the harness
+// executes operations sequentially).
+func guardHang(f func() string) string {
+	if atomic.LoadInt32(&labelHangs) >= labelMaxHangs {
+		return "skipped-after-hangs"
+	}
+	if labelW == nil {
+		labelW = newLabelWorker()
+		labelTimer = time.NewTimer(labelOpTimeout)
+	}
+	labelTimer.Reset(labelOpTimeout)
+	labelW.req <- f
+	select {
+	case out := <-labelW.resp:
+		return out
+	case <-labelTimer.C:
+		atomic.AddInt32(&labelHangs, 1)
+		labelW = newLabelWorker()
+		return "hang"
+	}
+}
+
 func execLabel(op string, args []string) string {
+	return guardHang(func() string { return execLabelRaw(op, args) })
+}
+
+func execLabelRaw(op string, args []string) string {
 	switch op {
 	case "labdec":
 		l, err := rfc1035label.FromBytes(unhx(args[0]))
@@ -576,6 +644,9 @@ var labelAlphabet = []byte{0, 1, 2, 63, 64, 0xc0, 0xc1, 'a', '.'}
 
 const labelEnumLen = 7
 
+// name lists used as edits in the exhaustive (buffer, edit) part
+var labelEnumEdits = []string{"-", ".", "61", "61,61", "61,62", ".,61", "612e61", "2e"}
+
 // enumLabelStrings: every byte string over labelAlphabet of length 0..maxLen.
 func enumLabelStrings(maxLen int, f func(b []byte)) {
 	buf := make([]byte, 0, maxLen)
@@ -662,14 +733,18 @@ func oracleC19(r *Rng, n int, thorough bool, seeds []string) *OracleResult {
 	guard := func(input, class string, f func() (string, string)) {
 		res.Evaluations++
 		var what, cls string
-		func() {
-			defer func() {
-				if e := recover(); e != nil {
-					what, cls = fmt.Sprint("panic: ", e), "label-panic"
-				}
-			}()
+		switch out := guardHang(func() string {
 			what, cls = f()
-		}()
+			return "done"
+		}); out {
+		case "done":
+		case "panic":
+			what, cls = "panic: "+lastPanic, "label-panic"
+		case "hang":
+			what, cls = fmt.Sprintf("no return within %v", labelOpTimeout), "label-hang"
+		default:
+			return // not executed any more after repeated hangs
+		}
 		if what != "" {
 			if cls == "" {
 				cls = class
@@ -776,6 +851,26 @@ func oracleC19(r *Rng, n int, thorough bool, seeds []string) *OracleResult {
 			return "", ""
 		})
 	}
+	// smallest inputs first, so that the failing inputs reported are minimal
+	if thorough {
+		enumLabelStrings(labelEnumLen, func(b []byte) {
+			checkDecode(b, true)
+			res.Tags["exhaustive"]++
+		})
+	} else {
+		enumLabelStrings(4, func(b []byte) {
+			checkDecode(b, true)
+			res.Tags["exhaustive<=4"]++
+		})
+	}
+	// every (buffer up to length 3, edit) pair from a fixed edit list
+	enumLabelStrings(3, func(b []byte) {
+		bb := append([]byte{}, b...)
+		for _, e := range labelEnumEdits {
+			checkEdit(bb, parseNames(e))
+			res.Tags["exhaustive-edit"]++
+		}
+	})
 	for _, s := range seeds {
 		toks := strings.Fields(s)
 		if len(toks) < 2 {
@@ -798,17 +893,6 @@ func oracleC19(r *Rng, n int, thorough bool, seeds []string) *OracleResult {
 				}
 			}
 		}()
-	}
-	if thorough {
-		enumLabelStrings(labelEnumLen, func(b []byte) {
-			checkDecode(b, true)
-			res.Tags["exhaustive"]++
-		})
-	} else {
-		enumLabelStrings(4, func(b []byte) {
-			checkDecode(b, true)
-			res.Tags["exhaustive<=4"]++
-		})
 	}
 	for i := 0; i < n; i++ {
 		rr := r.Fork()
@@ -849,7 +933,7 @@ func init() {
 			enumLabelStrings(3, func(b []byte) {
 				bb := append([]byte{}, b...)
 				emit("labre " + hx(bb))
-				for _, e := range []string{"-", ".", "61", "61,61", "612e61", "2e"} {
+				for _, e := range labelEnumEdits {
 					emit("labedit " + hx(bb) + " " + e)
 				}
 			})
